@@ -140,6 +140,24 @@ def run(ctx):
         first_sort = min(x["sp"][3] for x in sorts)
         early = [H.loc(x) for x in idx if x["sp"][3] < first_sort]
         ctx.inst("C15.R10", "%s#sorted-before-indexed" % name, not early, "elements of the numbers read before the sort: %s" % (early or "none"), H.loc(a["body"]))
+        # a partial selection (`select_nth_unstable*`(k)) puts an order statistic at position k only: every other position of
+        # the vector holds an arbitrary element of its side, so the vector itself may afterwards be read at k and nowhere else
+        sels = [x for x in sorts if x["name"].startswith("select_nth")]
+        full = [x for x in sorts if not x["name"].startswith("select_nth")]
+        if sels and not full:
+            blk_ = H.strip(a["body"])
+            env_ = S.Env(roles={ARGS_NAME[0]: ARGS})
+            for s_ in (blk_.get("stmts") or []) if H.kind(blk_) == "Block" else []:
+                if s_["k"] == "Let" and H.kind(s_["pat"]) == "Bind" and s_.get("init") is not None:
+                    if s_["pat"].get("ty", "").endswith("Vec<f64>"):
+                        env_.roles[s_["pat"]["name"]] = N
+                    else:
+                        env_.inline[s_["pat"]["name"]] = (s_["init"], env_.child())
+            ks = [S.norm(x["args"][0], env_) for x in sels if x.get("args")]
+            off = [H.loc(x) for x in idx if H.kind(x) == "Index" and x["sp"][3] > first_sort and not S.has_unknown(S.norm(x["i"], env_)) and all(S.norm(x["i"], env_) != k_ for k_ in ks)]
+            unk = [x for x in idx if H.kind(x) == "Index" and x["sp"][3] > first_sort and S.has_unknown(S.norm(x["i"], env_))]
+            ctx.inst("C15.R10", "%s#partial-selection-read-at-selected-rank-only" % name, False if (off and ks) else (None if (unk or not ks) else True),
+                     "after a partial selection at %s the vector is indexed at another position: %s (only the selected position is an order statistic)" % ([S.show(k_) for k_ in ks], off or "none"), H.loc(a["body"]))
     # percentile(l, p) is an element of l: what the arm returns is one indexed element, never arithmetic on several
     pa = arms.get("Percentile")
     if pa is not None:
